@@ -61,8 +61,16 @@ def _bind(env: Dict[str, ast.AST], target: ast.AST, value: Optional[ast.AST]):
             for t, v in zip(target.elts, value.elts):
                 _bind(env, t, v)
         else:
+            star = [i for i, t in enumerate(target.elts) if isinstance(t, ast.Starred)]
+            n = len(target.elts)
             for i, t in enumerate(target.elts):
-                _bind(env, t, None if value is None else ast.Subscript(value=value, slice=ast.Constant(value=i), ctx=ast.Load()))
+                if isinstance(t, ast.Starred):
+                    _bind(env, t.value, None)
+                    continue
+                # elements after a starred target are counted from the end
+                k = i if not star or i < star[0] else i - n
+                ix = ast.Constant(value=k) if k >= 0 else ast.UnaryOp(op=ast.USub(), operand=ast.Constant(value=-k))
+                _bind(env, t, None if value is None else ast.Subscript(value=value, slice=ix, ctx=ast.Load()))
     elif isinstance(target, ast.Starred):
         _bind(env, target.value, None)
 
